@@ -219,12 +219,13 @@ Definition check_case (c : case) : N :=
           (* the model predicts a crash while the table is built *)
           let same := match impl with Panic => true | _ => false end in
           let spec := match impl with Ok o => spec_obs (length (o_fixed o)) o | _ => false end in
-          verdict same spec (if edge then Some 1%N else None) true
+          verdict same spec None true
       | Ok fixedF =>
           let n := length fixedF in
           let fixed_bits := map f64_bits fixedF in
           let ws := weigh F fixedF in
-          let dyn_only := Nat.eqb (n_fixed F fixedF) 0 in
+          (* the ring is the target list itself: no fixed weight, or the even fallback of 290c777 *)
+          let dyn_only := negb (uses_fill F fixedF) in
           let counts := map (slot_count F) ws in
           match impl with
           | Ok o =>
@@ -275,8 +276,7 @@ Definition check_case (c : case) : N :=
                             end in
               let same := same_weights && same_counts && same_ring && same_first && same_rnd && same_q in
               let spec := spec_obs n o in
-              let region := if edge then Some 2%N else None in
-              verdict same spec region (negb dyn_only && Nat.ltb 1 n)
+              verdict same spec None (negb dyn_only && Nat.ltb 1 n)
           | _ =>
               (* the implementation crashed (or failed) where the model builds the table *)
               verdict false false None true
